@@ -25,10 +25,83 @@ const armPkg = "internal/arch/arm64asm"
 var c17Rename = map[string]string{"Sys": "sys", "Sys_AT": "sys_AT", "Sys_DC": "sys_DC", "Sys_IC": "sys_IC", "Sys_TLBI": "sys_TLBI", "Sys_SYS": "sys_SYS"}
 
 // canon renders an AST node without positions/comments, literals by value, identifiers through the rename map.
-func canon(n interface{}) string {
+//
+// Three behaviour-preserving differences are normalised away on both sides: a package-level constant is rendered as its
+// literal value; fmt.Errorf and errors.New of one verb-free string literal are the same call; an assignment whose target
+// is a package-level variable that the package never reads (coverage bookkeeping) is dropped.
+func (ds *declSet) canon(n interface{}) string {
 	var sb strings.Builder
+	canonSide = ds
 	canonW(&sb, reflect.ValueOf(n))
 	return sb.String()
+}
+
+// canonSide: the declarations of the side being rendered (set by declSet.canon; rendering is sequential).
+var canonSide *declSet
+
+// errCtor: e is fmt.Errorf("…")/errors.New("…") of a single verb-free literal; returns the literal.
+func errCtor(e *ast.CallExpr) (string, bool) {
+	sel, ok := e.Fun.(*ast.SelectorExpr)
+	if !ok || len(e.Args) != 1 {
+		return "", false
+	}
+	pk, ok := sel.X.(*ast.Ident)
+	if !ok || !((pk.Name == "fmt" && sel.Sel.Name == "Errorf") || (pk.Name == "errors" && sel.Sel.Name == "New")) {
+		return "", false
+	}
+	lit, ok := e.Args[0].(*ast.BasicLit)
+	if !ok || lit.Kind != token.STRING || strings.Contains(lit.Value, "%") {
+		return "", false
+	}
+	return lit.Value, true
+}
+
+// deadWrite: st assigns plain values to (elements of) package-level variables that are never read.
+func (ds *declSet) deadWrite(st ast.Stmt) bool {
+	as, ok := st.(*ast.AssignStmt)
+	if !ok || as.Tok != token.ASSIGN || ds == nil {
+		return false
+	}
+	for _, l := range as.Lhs {
+		root := l
+		for {
+			switch x := root.(type) {
+			case *ast.IndexExpr:
+				if _, plain := x.Index.(*ast.Ident); !plain {
+					if _, lit := x.Index.(*ast.BasicLit); !lit {
+						return false
+					}
+				}
+				root = x.X
+				continue
+			case *ast.ParenExpr:
+				root = x.X
+				continue
+			}
+			break
+		}
+		id, ok := root.(*ast.Ident)
+		if !ok || !ds.writeOnly[id.Name] || (id.Obj != nil && id.Obj.Kind != ast.Var) {
+			return false
+		}
+		if id.Obj != nil {
+			if _, pkgLevel := id.Obj.Decl.(*ast.ValueSpec); !pkgLevel {
+				return false
+			}
+		}
+	}
+	for _, rv := range as.Rhs {
+		switch x := rv.(type) {
+		case *ast.BasicLit:
+		case *ast.Ident:
+			if x.Name != "true" && x.Name != "false" {
+				return false
+			}
+		default:
+			return false
+		}
+	}
+	return true
 }
 
 func canonW(sb *strings.Builder, v reflect.Value) {
@@ -49,6 +122,12 @@ func canonW(sb *strings.Builder, v reflect.Value) {
 				if r, ok := c17Rename[name]; ok {
 					name = r
 				}
+				if canonSide != nil && (x.Obj == nil || x.Obj.Kind == ast.Con) {
+					if lit, ok := canonSide.consts[name]; ok {
+						canonW(sb, reflect.ValueOf(lit))
+						return
+					}
+				}
 				sb.WriteString("id:" + name)
 				return
 			case *ast.BasicLit:
@@ -67,6 +146,11 @@ func canonW(sb *strings.Builder, v reflect.Value) {
 			case *ast.ParenExpr:
 				canonW(sb, reflect.ValueOf(x.X))
 				return
+			case *ast.CallExpr:
+				if lit, ok := errCtor(x); ok {
+					sb.WriteString("newerror:" + lit)
+					return
+				}
 			}
 		}
 		canonW(sb, v.Elem())
@@ -90,6 +174,11 @@ func canonW(sb *strings.Builder, v reflect.Value) {
 	case reflect.Slice:
 		sb.WriteString("[")
 		for i := 0; i < v.Len(); i++ {
+			if v.Index(i).CanInterface() {
+				if st, isStmt := v.Index(i).Interface().(ast.Stmt); isStmt && canonSide.deadWrite(st) {
+					continue
+				}
+			}
 			canonW(sb, v.Index(i))
 			sb.WriteString(",")
 		}
@@ -114,6 +203,10 @@ type declSet struct {
 	values map[string]ast.Expr      // top-level var/const initialisers by name
 	types  map[string]ast.Expr
 	fset   *token.FileSet
+	// consts: package-level constants declared with a literal value; writeOnly: package-level variables that no
+	// expression of the package reads
+	consts    map[string]*ast.BasicLit
+	writeOnly map[string]bool
 }
 
 func parseDecls(dir string, skip map[string]bool) (*declSet, error) {
@@ -124,7 +217,9 @@ func parseDecls(dir string, skip map[string]bool) (*declSet, error) {
 	if err != nil {
 		return nil, err
 	}
-	ds := &declSet{funcs: map[string]*ast.FuncDecl{}, values: map[string]ast.Expr{}, types: map[string]ast.Expr{}, fset: fset}
+	ds := &declSet{funcs: map[string]*ast.FuncDecl{}, values: map[string]ast.Expr{}, types: map[string]ast.Expr{}, fset: fset, consts: map[string]*ast.BasicLit{}, writeOnly: map[string]bool{}}
+	pkgVars := map[string]bool{}
+	reads := map[string]bool{}
 	for _, pk := range pkgs {
 		for _, f := range pk.Files {
 			for _, d := range f.Decls {
@@ -159,6 +254,12 @@ func parseDecls(dir string, skip map[string]bool) (*declSet, error) {
 										n = r
 									}
 									ds.values[n] = s.Values[i]
+									if lit, isLit := s.Values[i].(*ast.BasicLit); isLit && x.Tok == token.CONST {
+										ds.consts[n] = lit
+									}
+								}
+								if x.Tok == token.VAR {
+									pkgVars[nm.Name] = true
 								}
 							}
 						case *ast.TypeSpec:
@@ -171,6 +272,59 @@ func parseDecls(dir string, skip map[string]bool) (*declSet, error) {
 					}
 				}
 			}
+			// reads of package-level variables: every mention that is not the root of an assignment target
+			target := map[*ast.Ident]bool{}
+			ast.Inspect(f, func(n ast.Node) bool {
+				if as, ok := n.(*ast.AssignStmt); ok && as.Tok == token.ASSIGN {
+					for _, l := range as.Lhs {
+						root := l
+						for {
+							switch x := root.(type) {
+							case *ast.IndexExpr:
+								root = x.X
+								continue
+							case *ast.ParenExpr:
+								root = x.X
+								continue
+							}
+							break
+						}
+						if id, ok := root.(*ast.Ident); ok {
+							target[id] = true
+						}
+					}
+				}
+				return true
+			})
+			ast.Inspect(f, func(n ast.Node) bool {
+				switch x := n.(type) {
+				case *ast.ValueSpec:
+					for _, v := range x.Values {
+						ast.Inspect(v, func(m ast.Node) bool {
+							if id, ok := m.(*ast.Ident); ok {
+								reads[id.Name] = true
+							}
+							return true
+						})
+					}
+					return false
+				case *ast.Ident:
+					if !target[x] && (x.Obj == nil || x.Obj.Kind == ast.Var) {
+						if x.Obj != nil {
+							if _, pkgLevel := x.Obj.Decl.(*ast.ValueSpec); !pkgLevel {
+								return true
+							}
+						}
+						reads[x.Name] = true
+					}
+				}
+				return true
+			})
+		}
+	}
+	for v := range pkgVars {
+		if !reads[v] {
+			ds.writeOnly[v] = true
 		}
 	}
 	return ds, nil
@@ -278,7 +432,7 @@ func c17(c *Ctx) {
 		a, okA := ours.values[name]
 		b, okB := ref.values[name]
 		if okA && okB {
-			r.Check(canon(a) == canon(b), "C17.R1", name+" equals the reference", armPkg+"/tables.go", "identical", "table "+name+" differs from the reference")
+			r.Check(ours.canon(a) == ref.canon(b), "C17.R1", name+" equals the reference", armPkg+"/tables.go", "identical", "table "+name+" differs from the reference")
 		}
 	}
 	// ---- R2 code equality
@@ -301,10 +455,10 @@ func c17(c *Ctx) {
 			continue
 		}
 		if n == "decodeArg" {
-			nEq += c17Cases(r, of, rf, diverge, file)
+			nEq += c17Cases(r, ours, ref, of, rf, diverge, file)
 			continue
 		}
-		if canon(of.Type) == canon(rf.Type) && canon(of.Body) == canon(rf.Body) {
+		if ours.canon(of.Type) == ref.canon(rf.Type) && ours.canon(of.Body) == ref.canon(rf.Body) {
 			nEq++
 			r.OK("C17.R2", "func "+n, armPkg+"/"+file, "equal to the reference modulo renaming")
 		} else {
@@ -314,7 +468,7 @@ func c17(c *Ctx) {
 	// type declarations the decoder depends on
 	for n, ot := range ours.types {
 		if rt, ok := ref.types[n]; ok {
-			if canon(ot) != canon(rt) {
+			if ours.canon(ot) != ref.canon(rt) {
 				diverge["type "+n] = true
 			}
 		}
@@ -509,8 +663,8 @@ var c17BCEAllowed = map[string]string{
 }
 
 // c17Cases compares decodeArg clause by clause; returns number of equal clauses.
-func c17Cases(r *Report, of, rf *ast.FuncDecl, diverge map[string]bool, file string) int {
-	clauses := func(fd *ast.FuncDecl) (map[string]*ast.CaseClause, string) {
+func c17Cases(r *Report, ours, ref *declSet, of, rf *ast.FuncDecl, diverge map[string]bool, file string) int {
+	clauses := func(ds *declSet, fd *ast.FuncDecl) (map[string]*ast.CaseClause, string) {
 		out := map[string]*ast.CaseClause{}
 		rest := ""
 		for _, st := range fd.Body.List {
@@ -529,15 +683,15 @@ func c17Cases(r *Report, of, rf *ast.FuncDecl, diverge map[string]bool, file str
 					}
 				}
 			} else {
-				rest += canon(st) + "|"
+				rest += ds.canon(st) + "|"
 			}
 		}
 		return out, rest
 	}
-	oc, orest := clauses(of)
-	rc, rrest := clauses(rf)
+	oc, orest := clauses(ours, of)
+	rc, rrest := clauses(ref, rf)
 	n := 0
-	if orest != rrest || canon(of.Type) != canon(rf.Type) {
+	if orest != rrest || ours.canon(of.Type) != ref.canon(rf.Type) {
 		diverge["decodeArg"] = true
 	}
 	var keys []string
@@ -549,7 +703,7 @@ func c17Cases(r *Report, of, rf *ast.FuncDecl, diverge map[string]bool, file str
 	for _, k := range keys {
 		a := oc[k]
 		b, ok := rc[k]
-		if ok && canon(a.Body) == canon(b.Body) {
+		if ok && ours.canon(a.Body) == ref.canon(b.Body) {
 			n++
 			continue
 		}
